@@ -38,12 +38,18 @@ var reconfDirs = []string{"P0", "P1", "P2", "P3missing"}
 type reconfOpt struct {
 	Dirs []string `json:"dirs,omitempty"`
 	Auto *bool    `json:"auto,omitempty"`
+	// a step that is a file-system change instead of a Configure call: "add:<dir>" (a new Spec file), "del:<dir>"
+	Fs string `json:"fs,omitempty"`
 }
 
 func genHist(rng *rand.Rand, n int) [][]reconfOpt {
 	var h [][]reconfOpt
 	for i := 0; i < n; i++ {
 		var step []reconfOpt
+		if rng.Intn(6) == 0 {
+			h = append(h, []reconfOpt{{Fs: []string{"add:", "del:"}[rng.Intn(2)] + reconfDirs[rng.Intn(3)]}})
+			continue
+		}
 		for k := 1 + rng.Intn(2); k > 0; k-- {
 			if rng.Intn(2) == 0 {
 				b := rng.Intn(2) == 0
@@ -87,6 +93,12 @@ func (reconfStream) Generate(rng *rand.Rand, tier string, emit func(Case)) {
 		{[][]reconfOpt{{{Auto: &fa}}, {{Dirs: []string{"P3missing", "P1"}}, {Auto: &tr}}}, 1},
 		{[][]reconfOpt{{{Dirs: []string{"P3missing"}}}}, -1},
 		{[][]reconfOpt{{{Dirs: []string{"P3missing"}}, {Auto: &fa}}}, -1},
+		// the directory content changes, then the cache is configured with the options it already has
+		{[][]reconfOpt{{{Auto: &fa}}, {{Fs: "add:P0"}}, {{Auto: &fa}}}, -1},
+		{[][]reconfOpt{{{Dirs: []string{"P1", "P2"}}, {Auto: &fa}}, {{Fs: "add:P2"}}, {{Fs: "del:P1"}}, {{Dirs: []string{"P1", "P2"}}}}, -1},
+		{[][]reconfOpt{{{Fs: "add:P0"}}, {{Auto: &tr}}}, -1},
+		{[][]reconfOpt{{{Dirs: []string{"P1"}}}, {{Fs: "add:P1"}}}, -1},
+		{[][]reconfOpt{{{Auto: &fa}}, {{Fs: "add:P0"}}}, -1},
 	} {
 		hj, _ := json.Marshal(fx.h)
 		var hm []any
@@ -254,8 +266,20 @@ func (reconfStream) Execute(c Case) {
 		r0 := stableResources()
 		cache, _ := cdi.NewCache(cdi.WithSpecDirs(filepath.Join(reconfRoot, "P0")))
 		finalDirs, finalAuto := []string{"P0"}, true
-		lastShort := false
+		lastShort, dirty, nfs := false, false, 0
 		for i, step := range hist {
+			if len(step) == 1 && step[0].Fs != "" {
+				op, d, _ := strings.Cut(step[0].Fs, ":")
+				nfs++
+				if op == "add" {
+					writeProbeSpec(filepath.Join(reconfRoot, d), fmt.Sprintf("fs%d", nfs))
+				} else {
+					_ = os.Remove(filepath.Join(reconfRoot, d, "s.json"))
+				}
+				dirty, lastShort = true, false
+				continue
+			}
+			dirty = false
 			opts := toOptions(step)
 			if i == shortage {
 				withFdShortage(func() { _ = cache.Configure(opts...) })
@@ -272,7 +296,7 @@ func (reconfStream) Execute(c Case) {
 			}
 		}
 		r1 := stableResources()
-		if lastShort && !finalAuto {
+		if (lastShort || dirty) && !finalAuto {
 			// manual mode: the application refreshes when it wants to; a scan that failed during the
 			// shortage is repeated by an explicit Refresh, as for a cache created during the shortage
 			_ = cache.Refresh()
@@ -283,9 +307,19 @@ func (reconfStream) Execute(c Case) {
 		}
 		fresh, _ := cdi.NewCache(cdi.WithSpecDirs(abs...), cdi.WithAutoRefresh(finalAuto))
 		r2 := resourcesUntil(func(r procRes) bool { return r.minus(r1) == r1.minus(r0) })
-		obs["sameasfresh"] = reflect.DeepEqual(cache.ListDevices(), fresh.ListDevices()) &&
-			reflect.DeepEqual(fileErrors(cache), fileErrors(fresh)) &&
-			reflect.DeepEqual(cache.GetSpecDirectories(), fresh.GetSpecDirectories())
+		same := func() bool {
+			return reflect.DeepEqual(cache.ListDevices(), fresh.ListDevices()) &&
+				reflect.DeepEqual(fileErrors(cache), fileErrors(fresh)) &&
+				reflect.DeepEqual(cache.GetSpecDirectories(), fresh.GetSpecDirectories())
+		}
+		isSame := same()
+		if !isSame && finalAuto && dirty {
+			// the watcher goroutine may still be catching up with the last file-system change
+			for deadline := time.Now().Add(6 * time.Second); !isSame && time.Now().Before(deadline); isSame = same() {
+				time.Sleep(20 * time.Millisecond)
+			}
+		}
+		obs["sameasfresh"] = isSame
 		t, f := r1.minus(r0), r2.minus(r1)
 		obs["target"] = map[string]any{"fds": t.Fds, "inotify": t.Inotify, "watches": t.Watches, "goroutines": t.Goroutines}
 		obs["fresh"] = map[string]any{"fds": f.Fds, "inotify": f.Inotify, "watches": f.Watches, "goroutines": f.Goroutines}
